@@ -228,7 +228,9 @@ def judgeV2 (es : List V2Entry) (l : Layout) (hist : List HEv) (items : List Tra
     let finalKeys := match items.getLast? with | some it => it.keys | none => []
     if !finalKeys.isEmpty then errs := errs ++ [s!"keys {finalKeys} still down at the end"]
     let lastChange := (tr.map (·.1)).foldl max 0
-    let bound := tLastRel + (nEv + 8) * (osd + 2) + 40
+    -- a pending chord may wait for its own timeout (`pending`) before the presses are given up
+    let tmax := es.foldl (fun m e => max m e.pending) 0
+    let bound := tLastRel + (nEv + 8) * (osd + 2) + 40 + (nEv + 1) * tmax
     if lastChange > bound then errs := errs ++ [s!"last output change at tick {lastChange}, later than {bound}"]
     -- keys outside every chord come out in press order
     if !usesLayer then
